@@ -1,4 +1,5 @@
 pub mod client_codec;
+pub mod client_sm;
 pub mod framing;
 pub mod server_family;
 
@@ -12,6 +13,7 @@ pub fn run(id: &str, tier: &str) -> i32 {
         "C06" => framing::check_c06(tier),
         "C07" => framing::check_c07(tier),
         "C08" => server_family::check_c08(tier),
+        "C10" => client_sm::check_c10(tier),
         "C17" => server_family::check_c17(tier),
         _ => {
             eprintln!("unknown or unimplemented property {id}");
@@ -49,6 +51,7 @@ pub fn replay(path: &str) -> i32 {
         Some("c04") => client_codec::replay_c04(scn),
         Some("server-stream") => framing::replay_server_stream(scn),
         Some("c07-server") | Some("c07-client") => framing::replay_c07(scn),
+        Some("client-sm") => client_sm::replay(scn),
         Some("client-stream") => framing::replay_client_stream(scn),
         k => {
             eprintln!("unknown replay kind {k:?}");
